@@ -51,4 +51,8 @@ theorem tie_deadlock_free_flat (hsh : ∀ k, sh k < n) {G : Key → Nat} {B : Na
     (hbusy : ∃ t, (s.th t).phase ≠ .idle) : ∃ a s', isProgress a ∧ step cfg n sh s a = some s' :=
   kl_deadlock_free_flat tie_cfg_proved hsh hr hbusy
 
+theorem tie_no_wait_cycle (hsh : ∀ k, sh k < n) {rank : Key → Nat} (hr : ReachOrd cfg n sh rank s) (t : Tid) :
+    ¬ Relation.TransGen (waitsFor s) t t :=
+  kl_no_wait_cycle tie_cfg_proved hsh hr t
+
 end Nv.C02
